@@ -4,6 +4,7 @@
   * the shape of `PairType.__lt__` (pinned tree: not lexicographic; only used by `sorted` in `from_python_object`);
   * the shape of the name generator in `get_type_layout` (repaired: generated names made different from the declared
     ones / pinned: not / anything else: unrecognised);
+  * `BLS12_381_FrType.modulus`; which conversion methods the domain / bls12_381 classes inherit (`INHERITS`);
   * that every mirrored function still has the body the hand-written mirror was made from (hash of the unparsed
     statements, docstrings stripped).  A changed body => `sourceRecognised = none`: the model refuses to run and the
     side condition of the theorems does not close."""
@@ -55,15 +56,91 @@ MIRRORED = {
     ('michelson/types/domain.py', 'TimestampType', 'to_python_object'): '7f5d4d09a4d6a552',
     ('michelson/types/domain.py', 'MutezType', 'from_value'): 'ed02c8e5389f7031',
     ('michelson/types/domain.py', 'MutezType', 'from_python_object'): '5738a0c6090d8114',
+    # ---- extension: domain leaves and the alternative input forms
+    ('michelson/forge.py', None, 'optimize_timestamp'): '096b3717f58bf1c4',
+    ('michelson/types/domain.py', 'AddressType', 'from_value'): '30e2486432343138',
+    ('michelson/types/domain.py', 'AddressType', 'from_python_object'): 'f862d4003e66262b',
+    ('michelson/types/domain.py', 'AddressType', 'to_python_object'): '7f5d4d09a4d6a552',
+    ('michelson/types/domain.py', 'AddressType', '__lt__'): '2377a5f364e9f5f2',
+    ('michelson/types/domain.py', 'AddressType', '_split'): '6ef675ca653895a9',
+    ('michelson/types/domain.py', 'KeyType', 'from_value'): '53c041d4998450c4',
+    ('michelson/types/domain.py', 'KeyType', 'to_python_object'): '7f5d4d09a4d6a552',
+    ('michelson/types/domain.py', 'KeyType', '__lt__'): '03636012aacb3b26',
+    ('michelson/types/domain.py', 'KeyType', 'raw'): 'b4270ca3cde19afe',
+    ('michelson/types/domain.py', 'KeyType', 'prefix'): 'eaaf842696368991',
+    ('michelson/types/domain.py', 'KeyHashType', 'from_value'): '38241f02640d6726',
+    ('michelson/types/domain.py', 'KeyHashType', 'to_python_object'): '7f5d4d09a4d6a552',
+    ('michelson/types/domain.py', 'SignatureType', 'from_value'): '762b4e49a816e269',
+    ('michelson/types/domain.py', 'SignatureType', 'from_python_object'): 'f862d4003e66262b',
+    ('michelson/types/domain.py', 'SignatureType', 'to_python_object'): '7f5d4d09a4d6a552',
+    ('michelson/types/domain.py', 'SignatureType', '__lt__'): 'edd39173daf0258f',
+    ('michelson/types/domain.py', 'SignatureType', '__eq__'): '34ff5434b7f9d995',
+    ('michelson/types/domain.py', 'SignatureType', 'raw'): 'b4270ca3cde19afe',
+    ('michelson/types/domain.py', 'ChainIdType', 'from_value'): '068ea1aacdfaadc1',
+    ('michelson/types/domain.py', 'ChainIdType', 'from_python_object'): 'f862d4003e66262b',
+    ('michelson/types/domain.py', 'ChainIdType', 'to_python_object'): '7f5d4d09a4d6a552',
+    ('michelson/types/domain.py', 'ContractType', 'from_python_object'): 'e4481c16cbe2d2b3',
+    ('michelson/types/domain.py', 'ContractType', 'to_python_object'): '0eb9c1f7a54f28fe',
+    ('michelson/types/core.py', 'StringType', '__lt__'): '5445d6d443d5b06a',
+    ('michelson/types/bls.py', 'BLS12_381_FrType', 'bytes_to_int'): 'fa3e13b894ac5018',
+    ('michelson/types/bls.py', 'BLS12_381_FrType', 'from_value'): '76e8ecdf4dd3daf1',
+    ('michelson/types/bls.py', 'BLS12_381_FrType', 'from_python_object'): 'c0ef773edda9099f',
+    ('michelson/types/bls.py', 'BLS12_381_FrType', 'to_python_object'): '5208653feb7ac943',
+    ('michelson/types/bls.py', 'BLS12_381_G1Type', 'to_python_object'): '1e06b3e1c9c8fdce',
+    ('michelson/types/bls.py', 'BLS12_381_G2Type', 'to_python_object'): 'd0d43b03f16e4d9e',
+    ('michelson/types/base.py', 'MichelsonType', 'from_python_object'): '0c823067a4f59cbf',
+    # ---- extension: try_unpack=True (`blind_unpack` itself is recognised below: repaired / pinned)
+    ('michelson/micheline.py', None, 'micheline_value_to_python_object'): '7f940772836bc667',
+    ('michelson/forge.py', None, 'unforge_address'): '24b7c1cd4e200c82',
+    ('michelson/forge.py', None, 'unforge_public_key'): '74849358039e968a',
+    ('michelson/forge.py', None, 'unforge_chain_id'): '0b5184af09bb5600',
+    ('michelson/forge.py', None, 'unforge_signature'): '0e5801b5504802df',
+    # ---- extension: ticket, lambda (`TicketType.from_python_object` is recognised below: repaired / pinned)
+    ('michelson/types/ticket.py', 'TicketType', 'to_python_object'): '4f21bffc70a8124d',
+    ('michelson/types/domain.py', 'LambdaType', 'from_python_object'): '4f502615cddb0feb',
+    ('michelson/types/domain.py', 'LambdaType', 'to_python_object'): '8372006ed6295473',
+    ('michelson/types/domain.py', 'LambdaType', 'from_micheline_value'): '7a96394231c2ea15',
+    ('michelson/types/domain.py', 'LambdaType', 'to_micheline_value'): '97c3ea76549aef51',
     ('contract/data.py', 'ContractData', 'decode'): 'e0c5d831d3830454',
     ('contract/data.py', 'ContractData', 'encode'): '6828d651262620a8',
 }
+
+# (file, class, base classes as written, methods the class must NOT define): the mirror relies on inheritance here —
+# key / key_hash convert through `StringType.from_python_object` -> their own `from_value`; the bls12_381 points through
+# `BytesType.from_python_object` (`cls(value)`: no `from_value`, no length check); `never` has no conversion at all
+INHERITS = [
+    ('michelson/types/domain.py', 'AddressType', ['StringType'], []),
+    ('michelson/types/domain.py', 'KeyType', ['StringType'], ['from_python_object']),
+    ('michelson/types/domain.py', 'KeyHashType', ['StringType'], ['from_python_object', '__lt__', '__eq__']),
+    ('michelson/types/domain.py', 'SignatureType', ['StringType'], []),
+    ('michelson/types/domain.py', 'ChainIdType', ['StringType'], ['__lt__', '__eq__']),
+    ('michelson/types/domain.py', 'ContractType', ['AddressType'], ['from_value', '__lt__']),
+    ('michelson/types/domain.py', 'TimestampType', ['IntType'], ['__lt__', '__eq__']),
+    ('michelson/types/domain.py', 'MutezType', ['NatType'], ['to_python_object', '__lt__', '__eq__']),
+    ('michelson/types/bls.py', 'BLS12_381_FrType', ['IntType'], ['__lt__', '__eq__']),
+    ('michelson/types/bls.py', 'BLS12_381_G1Type', ['BytesType'], ['from_python_object', 'from_micheline_value', '__lt__', '__eq__']),
+    ('michelson/types/bls.py', 'BLS12_381_G2Type', ['BytesType'], ['from_python_object', 'from_micheline_value', '__lt__', '__eq__']),
+    ('michelson/types/core.py', 'NeverType', ['MichelsonType'], ['from_python_object', 'to_python_object', 'from_micheline_value']),
+]
 
 # get_type_layout (module-level function of adt.py): the body the mirror `Impl.PyConv.layoutGo / renameGo / fresh` was made
 # from (fixes/C12-1: a second loop makes every generated `prim_i` name differ from all declared names and from the
 # generated names before it), and the body of the pinned tree (first loop only: `pair (nat %nat_1) nat` -> two `nat_1`)
 LAYOUT_FRESH = 'bc57edfef740368a'
 LAYOUT_PINNED = 'f45adf8c82a80d26'
+
+# blind_unpack (michelson/micheline.py): the body the mirror `Impl.PyConv.blindUnpack` was made from (fixes/C12-2: a value that
+# starts with 0x05 and is not readable PACKed data goes on to the next reading whatever `unforge_micheline` raises:
+# ValueError, AssertionError, IndexError, KeyError), and the body of the pinned tree (only ValueError / AssertionError
+# suppressed: `to_python_object(try_unpack=True)` of the bytes 0x05 raises IndexError)
+BLIND_UNPACK_FALLS_BACK = '941de18a19eea18d'
+BLIND_UNPACK_PINNED = '47be26f240e58103'
+
+# TicketType.from_python_object: the body the mirror was made from (fixes/C12-3: ticketer, item and amount are converted one by
+# one, the way to_python_object shows them) and the pinned body (the object read as a value of `pair address (pair t nat)`,
+# whose layout flattens an unnamed pair t: `ticket (pair nat nat)` did not convert back)
+TICKET_COMPONENTWISE = 'daaab04caa33feda'
+TICKET_PINNED = '3d2b52de886d843c'
 
 PAIR_LT_PINNED = ['for i, item in enumerate(self.items):\n    if item > other.items[i]:\n        return False', 'return True']
 PAIR_LT_LEX = ['for i, item in enumerate(self.items):\n    if item != other.items[i]:\n        return item < other.items[i]', 'return False']
@@ -133,12 +210,58 @@ def gen(status):
     out.append('(`some false`: the old shape, a generated name can equal a declared one; `none`: unrecognised body)? -/')
     out.append('def generatedNamesFresh : Option Bool := ' + ('none' if fresh is None else f'some {str(fresh).lower()}'))
 
+    # ---- blind_unpack
+    bu = get_fn(tree('michelson/micheline.py'), None, 'blind_unpack')
+    falls = None
+    if bu is not None:
+        h = body_hash(bu)
+        falls = True if h == BLIND_UNPACK_FALLS_BACK else False if h == BLIND_UNPACK_PINNED else None
+    status['blind_unpack falls back on unreadable PACKed data'] = (
+        falls is True,
+        'IndexError / KeyError of unforge_micheline suppressed as well (as mirrored)' if falls
+        else 'old shape: only ValueError / AssertionError are suppressed (bytes 0x05 -> IndexError, 0x0503af -> KeyError)' if falls is False
+        else 'unrecognised body')
+    out.append('/-- `blind_unpack` goes on to the next reading whenever `unforge_micheline` fails (`some false`: the old shape, IndexError /')
+    out.append('KeyError escape; `none`: unrecognised body) -/')
+    out.append('def blindUnpackFallsBack : Option Bool := ' + ('none' if falls is None else f'some {str(falls).lower()}'))
+
+    # ---- TicketType.from_python_object
+    tf = get_fn(tree('michelson/types/ticket.py'), 'TicketType', 'from_python_object')
+    tick = None
+    if tf is not None:
+        h = body_hash(tf)
+        tick = True if h == TICKET_COMPONENTWISE else False if h == TICKET_PINNED else None
+    status['TicketType.from_python_object converts the three components'] = (
+        tick is True,
+        '(ticketer, item, amount) converted one by one (as mirrored)' if tick
+        else 'old shape: the object is read as a value of pair address (pair t nat); a ticket of an unnamed pair does not convert back' if tick is False
+        else 'unrecognised body')
+    out.append('/-- `TicketType.from_python_object` converts ticketer, item and amount one by one (`some false`: the old comb shape) -/')
+    out.append('def ticketComponentwise : Option Bool := ' + ('none' if tick is None else f'some {str(tick).lower()}'))
+
+    # ---- bls12_381_fr modulus
+    fr = find_class(tree('michelson/types/bls.py'), 'BLS12_381_FrType')
+    mod = None
+    if fr is not None:
+        mod = next((n.value.value for n in fr.body if isinstance(n, ast.Assign) and ast.unparse(n.targets[0]) == 'modulus'
+                    and isinstance(n.value, ast.Constant) and type(n.value.value) is int), None)
+    status['BLS12_381_FrType.modulus'] = (mod is not None, str(mod) if mod is not None else 'not an integer literal')
+    out.append('/-- `BLS12_381_FrType.modulus` -/')
+    out.append('def frModulus : Option Nat := ' + (f'some {mod}' if mod is not None else 'none'))
+
     # ---- everything else that is mirrored
     bad = []
     for (rel, cls, name), want in MIRRORED.items():
         fn = get_fn(tree(rel), cls, name)
         if fn is None or body_hash(fn) != want:
             bad.append(f'{cls or rel}.{name}')
+    for rel, cls, bases, absent in INHERITS:
+        node = find_class(tree(rel), cls)
+        if node is None or [ast.unparse(b) for b in node.bases] != bases:
+            bad.append(f'{cls}: bases')
+            continue
+        have = {n.name for n in node.body if isinstance(n, ast.FunctionDef)}
+        bad += [f'{cls}.{m} (now defined)' for m in absent if m in have]
     status['mirror source: to/from_python_object, iter_*, wrap_*, encode/decode'] = (
         not bad, f'{len(MIRRORED)} function bodies as mirrored' if not bad else 'changed: ' + ', '.join(bad))
     out.append('/-- the mirrored function bodies are the ones the hand-written mirror was made from -/')
